@@ -476,6 +476,10 @@ where
         for _ in 0..num {
             // we add one so that comments are left a the end of the line.
             let parts = self.next_split_n(segments + 1)?;
+            if parts.len() < segments {
+                // too few fields, e.g. a line cut short by a truncated file
+                return Err(QplibParseError::invalid_line(self.line_num).into());
+            }
             let (key, val) = f(parts).map_err(|e| e.with_line(self.line_num))?;
             out.insert(key, val);
         }
@@ -534,6 +538,9 @@ where
         let mut out = vec![HashMap::default(); size];
         for _ in 0..num {
             let parts = self.next_split_n(segments + 1)?;
+            if parts.len() < segments {
+                return Err(QplibParseError::invalid_line(self.line_num).into());
+            }
             let (m, key, val) = f(parts).map_err(|e| e.with_line(self.line_num))?;
             out[m].insert(key, val);
         }
@@ -587,6 +594,9 @@ where
         let num = self.next_parse()?;
         for _ in 0..num {
             let parts = self.next_split_n(3)?; // this is 3 because we ignore anything beyond the first 2
+            if parts.len() < 2 {
+                return Err(QplibParseError::invalid_line(self.line_num).into());
+            }
             let (i, val): (usize, V) = (
                 self.parse_or_err_with_line(&parts[0])?,
                 self.parse_or_err_with_line(&parts[1])?,
